@@ -443,6 +443,10 @@ class Ctx:
             lines.append(f"VIOLATION property={self.prop} replay={rp} no-failing-input-found")
             rc = 1
         else:
+            # a clean run leaves no replay file of an earlier violation behind
+            stale = os.path.join(rdir, f"{self.prop}.json")
+            if os.path.exists(stale) and not getattr(self, "replay", None):
+                os.remove(stale)
             for cls, e in open_classes.items():
                 if cls in self.known_seen:
                     lines.append(f"KNOWN-FINDING: property={self.prop} {e['id']} [{cls}] {e['what']}")
